@@ -292,6 +292,11 @@ class GdbDebugDriver(DebugDriver):
             res = self._send_command(f"G {data}")
             if res == "OK":
                 self.logger.debug("Register written")
+                # Keep the cache in sync with what the target now holds
+                for register in self.arch.gdb_registers:
+                    self._register_value_cache[register] = regvalues[
+                        register
+                    ]
             else:
                 self.logger.warning("Registers writing failed: %s", res)
 
@@ -317,11 +322,13 @@ class GdbDebugDriver(DebugDriver):
         """Set a single register"""
         if self.status == DebugState.STOPPED:
             idx = self.arch.gdb_registers.index(register)
-            value = self._pack_register(register, value)
-            value = binascii.b2a_hex(value).decode("ascii")
-            res = self._send_command(f"P {idx:x}={value}")
+            data = self._pack_register(register, value)
+            data = binascii.b2a_hex(data).decode("ascii")
+            res = self._send_command(f"P {idx:x}={data}")
             if res == "OK":
                 self.logger.debug("Register written")
+                # Keep the cache in sync with what the target now holds
+                self._register_value_cache[register] = value
             else:
                 self.logger.warning("Register write failed: %s", res)
 
